@@ -51,6 +51,16 @@ func (hc *histCase) reopen() {
 	hc.add(proto.Op{K: "sql", SQL: "USE d1"}, opMeta{kind: "reopen"})
 }
 
+// crashRecover drops every in-memory structure and runs recovery: with the
+// timer off the files are exactly what a kill -9 would leave, so the trees
+// that the following walks see were (re)built by log replay.
+func (hc *histCase) crashRecover() {
+	hc.add(proto.Op{K: "session"}, opMeta{kind: "other"})
+	hc.add(proto.Op{K: "init"}, opMeta{kind: "recover"})
+	hc.add(proto.Op{K: "session"}, opMeta{kind: "other"})
+	hc.add(proto.Op{K: "sql", SQL: "USE d1"}, opMeta{kind: "reopen"})
+}
+
 // buildHistory generates one case. Small histories observe after every
 // statement; deep ones periodically.
 func buildHistory(c *core.Ctx, prop string, idx int, kind string) *histCase {
@@ -89,6 +99,9 @@ func buildHistory(c *core.Ctx, prop string, idx int, kind string) *histCase {
 			if r.Chance(1, 25) {
 				hc.reopen()
 			}
+			if prop == "C11" && r.Chance(1, 12) {
+				hc.crashRecover()
+			}
 			observe(true, 1, i)
 		}
 	case "deep", "deeper":
@@ -114,6 +127,10 @@ func buildHistory(c *core.Ctx, prop string, idx int, kind string) *histCase {
 			}
 			if r.Chance(1, 30) {
 				hc.reopen()
+			}
+			if prop == "C11" && r.Chance(1, 10) {
+				hc.crashRecover()
+				observe(true, 1, 0)
 			}
 			// around the split of the internal root (290 leaves = about 1165
 			// inserted rows) reload from the file after most statements:
@@ -162,7 +179,7 @@ func historyCheck(c *core.Ctx, prop string) []core.Floor {
 	if prop == "C01" {
 		c.Rule = "seeded histories of CREATE TABLE/INSERT/UPDATE/DELETE over 1-4 tables (half as SQL text through Session.ExecQuery, half as direct values), random flush placement and reopen; SELECT * of every table and of the catalog compared with an in-memory model after every statement (small) or every 5 statements (deep/catalog). Distinct = script hash; non-trivial = the history contained a leaf split after a delete on the same table, or a root move."
 	} else {
-		c.Rule = "same histories as C01; every page reachable from every table root dumped at quiescent points (between statements, timer off) and checked for the shape invariants, with the engine's own point lookup and reverse scan run on every stored key. Distinct = script hash; non-trivial = the walk saw a tree with >= 2 levels."
+		c.Rule = "same histories as C01; every page reachable from every table root dumped at quiescent points (between statements, timer off) and checked for the shape invariants, with the engine's own point lookup and reverse scan run on every stored key; about one statement in twelve is followed by dropping every in-memory structure and running recovery, so that many of the walked trees were rebuilt by log replay. Distinct = script hash; non-trivial = the walk saw a tree with >= 2 levels."
 	}
 	c.Assume = []string{"the verif accessors report page state faithfully", "flush placement is driven by the checker with the timer off (same flushPages code the timer runs)"}
 	drv := mustDriver(c, false)
@@ -189,7 +206,7 @@ func historyCheck(c *core.Ctx, prop string) []core.Floor {
 	if prop == "C01" {
 		return []core.Floor{{Key: "tombstone_crossed_split", Min: 1}, {Key: "internal_splits", Min: 1}, {Key: "catalog_root_moves", Min: 1}, {Key: "dumps_compared", Min: 100}}
 	}
-	return []core.Floor{{Key: "walks", Min: 100}, {Key: "walks_depth3", Min: 1}, {Key: "pages_checked", Min: 1000}}
+	return []core.Floor{{Key: "walks", Min: 100}, {Key: "walks_depth3", Min: 1}, {Key: "pages_checked", Min: 1000}, {Key: "recoveries_that_rebuilt_pages", Min: 20}}
 }
 
 func runHistoryCase(c *core.Ctx, prop, drv string, hc *histCase) {
@@ -310,6 +327,15 @@ func runHistoryCase(c *core.Ctx, prop, drv string, hc *histCase) {
 						break
 					}
 				}
+			}
+		case "recover":
+			c.Count("walks_after_crash_and_replay_cycles", 1)
+			if res.N > 0 {
+				c.Count("recoveries_that_rebuilt_pages", 1)
+			}
+			if res.Err != "" {
+				c.Violation(prop+":recovery-failed:"+errClass(res.Err), "InitStorage after dropping the session failed: "+res.Err, replay(res.ID))
+				violated = true
 			}
 		case "reopen":
 			c.Count("reopens", 1)
